@@ -331,8 +331,15 @@ def note_low_temperature(chk, fam, text, r):
 
 def run(chk):
     quick = chk.tier == "quick"
-    ok, log = chk.prove(["extract/Extract_C01.vo", "extract/Extract_ED.vo"])
+    ok, log = chk.prove(["extract/Extract_C01.vo", "extract/Extract_ED.vo"], extra_props=["Properties_C14_source.v"])
     chk.trusted += ["translator/gen_c01.py and translator/cexpr.py",
+                    "translator/gen_lehmann.py with translator/cstmt.py (statement splitter + shape recognition): reads, one generated file per C++ function, "
+                    "the control structure of SusceptibilityPart::compute (loop nest, zero-pole branch vs term branch), TermList::add_term / operator(), the call "
+                    "operators of SusceptibilityPart and Susceptibility (sum over parts, subtraction of the disconnected part), EnsembleAverage::compute "
+                    "(coq/gen/Gen_Leh*.v in the vocabulary coq/theories/LehmannShapes.v, interpreted by coq/theories/LehmannInterp.v); translator/gen_thermal.py "
+                    "for the loop body of Susceptibility::prepare (Gen_RetainSusc.v); Properties_C14_source.v = the agreement with the hand-written models and "
+                    "the theorems about the interpreted source. coq/theories/TermList.v models add_term in its find/erase/insert form: it agrees with the "
+                    "retry loop of the source when at most one stored term is like the added one and differs otherwise (Properties_C01_source.v)",
                     "extraction: ExtrOcamlBasic, ExtrOcamlNatInt, ExtrOCamlFloats; no Extract Constant of our own",
                     "ocaml/driver_c01.ml, ocaml/driver_ed.ml, harness/h_c01.cpp, harness/h_ed.cpp, harness/ed_common.h",
                     "Eigen's self-adjoint solver: certified per run; exp of libm"]
